@@ -214,7 +214,7 @@ pub mod v1 {
         /// A dictionary of customisations made to the way this notification is to be presented.
         ///
         /// These are added by push rules.
-        #[serde(with = "tweak_serde", skip_serializing_if = "Vec::is_empty")]
+        #[serde(default, with = "tweak_serde", skip_serializing_if = "Vec::is_empty")]
         pub tweaks: Vec<Tweak>,
     }
 
